@@ -431,6 +431,27 @@ func zzvC07ConcScenario(base string, name string, nUploaders int, mode string, s
 			}
 			zzvC07Oracle(add, r.u, r.placed, r.start, map[string][]byte{}, mode)
 			reps := r.u.reports()
+			// One report per week: the local report and the uploadable / uploaded copy of a week carry
+			// the same X (every uploader draws its own).
+			xOf := map[string]map[float64]bool{}
+			filesOf := map[string][]string{}
+			for name, data := range reps {
+				var rep telemetry.Report
+				if json.Unmarshal(data, &rep) != nil || rep.Week == "" {
+					continue
+				}
+				if xOf[rep.Week] == nil {
+					xOf[rep.Week] = map[float64]bool{}
+				}
+				xOf[rep.Week][rep.X] = true
+				filesOf[rep.Week] = append(filesOf[rep.Week], fmt.Sprintf("%s:X=%v", name, rep.X))
+			}
+			for _, wk := range zzvSortedStrings(filesOf) {
+				if len(xOf[wk]) > 1 {
+					sort.Strings(filesOf[wk])
+					add("mixed-reports", "week %s has reports with different X (written by different uploaders): %v", wk, filesOf[wk])
+				}
+			}
 			var names []string
 			for n := range reps {
 				names = append(names, n)
@@ -563,4 +584,13 @@ func zzvRecordU(res *vrep.Result, st sched.Stats, sig func(sched.Found, string) 
 			res.Violate(sig(f, m), m, map[string]any{"scenario": f.Scenario, "bound": f.Bounds, "choices": f.Choices, "deviations": f.Devs, "messages": f.Messages, "steps": f.Steps})
 		}
 	}
+}
+
+func zzvSortedStrings(m map[string][]string) []string {
+	var ks []string
+	for k := range m {
+		ks = append(ks, k)
+	}
+	sort.Strings(ks)
+	return ks
 }
